@@ -173,9 +173,22 @@ def run(rep, bld, tier):
     if not states:
         raise CheckError("UserFunc_MC printed no case")
 
-    # ---- render: value cases grouped per (state, position, passes), everything else alone -------------------------
-    jobs = []          # (state, p, tw, [cases], source, slots)
-    unobservable = 0
+    # ---- replay ------------------------------------------------------------------------------------------------
+    def opts(st):
+        return ["-q"] + (["-U"] if st["cs"] else [])
+
+    def asm(js, timeout=8):
+        """js: (state, p, two, [cases]) -> [(job, source, slots, result)]"""
+        rend = [render(st, p, two, cs) for (st, p, two, cs) in js]
+        res = aslrun.assemble_many(bld, [{"sources": {"a.asm": src}, "opts": opts(j[0]), "timeout": timeout}
+                                         for j, (src, _) in zip(js, rend)])
+        return [(j, src, slots, r) for j, (src, slots), r in zip(js, rend, res)]
+
+    # a function whose body calls itself twice: as long as that does not end (known finding) two cases are enough
+    def fanout(st):
+        return any(d["line"].split(",", 1)[-1].count(d["line"].split()[0] + "(") >= 2 for d in st["defs"])
+
+    batches, probes_first, unobservable, skipped = [], [], 0, 0
     for st in states:
         if st["redef"] or any(d["doc"] == "error" for d in st["defs"]):
             # the program as a whole is rejected (or the manual does not say): probe values cannot be seen; the
@@ -184,102 +197,95 @@ def run(rep, bld, tier):
             continue
         groups = {}
         for c in st["cases"]:
-            groups.setdefault((c["p"], c["tw"]), []).append(c)
-        for (p, tw), cs in sorted(groups.items()):
+            groups.setdefault((c["p"], c["two"]), []).append(c)
+        if fanout(st):
+            probes_first.append((st, groups))
+            continue
+        for (p, two), cs in sorted(groups.items()):
             cs.sort(key=lambda c: c["e"])
-            batch = [c for c in cs if c["mach"]["k"] in ("int", "float", "str") and c["doc"]["k"] != "error"]
-            alone = [c for c in cs if c not in batch]
-            for part in ([batch] if batch else []) + [[c] for c in alone]:
-                src, slots = render(st, p, tw, part)
-                jobs.append((st, p, tw, part, src, slots))
-
-    def opts(st):
-        return ["-q"] + (["-U"] if st["cs"] else [])
-
-    def asm(js, timeout):
-        return aslrun.assemble_many(bld, [{"sources": {"a.asm": j[4]}, "opts": opts(j[0]), "timeout": timeout} for j in js])
-
-    def failed(j, res):
-        return len(j[3]) > 1 and (er.crashed(res) or res.rc != 0 or res.p is None)
-
-    # a function whose body calls itself twice: as long as that does not end (known finding) two cases are enough
-    def fanout(st):
-        return any(d["line"].split(",", 1)[-1].count(d["line"].split()[0] + "(") >= 2 for d in st["defs"])
-    fan = [j for j in jobs if fanout(j[0]) and j[3][0]["mach"]["k"] == "error" and j[1] == len(j[0]["defs"])]
-    rest = [j for j in jobs if j not in fan]
-    skipped = 0
-    final = []
-    if fan:
-        with Phase("userfunc: recursion with two calls (%d sources, two first)" % len(fan)):
-            head = asm(fan[:2], 4)
-            final += list(zip(fan[:2], head))
-            if any(r.timeout for r in head):
-                skipped = len(fan) - 2
+            vals = [c for c in cs if c["mach"]["k"] in ("int", "float", "str") and c["doc"]["k"] != "error"]
+            errs = [c for c in cs if c not in vals]
+            batches += [(st, p, two, part) for part in (vals, errs) if part]
+    done = []            # (state, p, two, case, source, observation)
+    if probes_first:
+        with Phase("userfunc: recursion with two calls in the body (%d programs)" % len(probes_first)):
+            for st, groups in probes_first:
+                n = len(st["defs"])
+                rec = [c for c in groups.get((n, False), []) if c["mach"]["k"] == "error"][:2]
+                out = asm([(st, n, False, [c]) for c in rec], timeout=4)
+                if any(r.timeout for (_, _, _, r) in out):
+                    for (j, src, slots, r) in out:
+                        done.append((st, n, False, j[3][0], src, observe(r, slots[0][0], slots[0][1])))
+                    skipped += len(st["cases"]) - len(rec)
+                else:
+                    for (p, two), cs in sorted(groups.items()):
+                        batches += [(st, p, two, [c]) for c in cs]
+    with Phase("userfunc: assemble %d sources (%d states, %d cases)" % (len(batches), len(states), sum(len(s["cases"]) for s in states))):
+        out = asm(batches)
+    singles = []
+    for (j, src, slots, r) in out:
+        st, p, two, cs = j
+        clean = not er.crashed(r) and r.rc == 0 and r.p is not None
+        errl = set() if er.crashed(r) else er.error_lines(r)
+        for c, (slot, line) in zip(cs, slots):
+            if len(cs) == 1 or clean:
+                done.append((st, p, two, c, src, observe(r, slot, line)))
+            elif line in errl and not (r.rc == 3 and line == max(errl)):
+                done.append((st, p, two, c, src, {"k": "error", "lines": [line], "here": True}))
             else:
-                final += list(zip(fan[2:], asm(fan[2:], 6)))
-    with Phase("userfunc: assemble %d sources (%d states, %d cases)" % (len(rest), len(states), sum(len(s["cases"]) for s in states))):
-        results = asm(rest, 6)
-    redo = []
-    for j, res in zip(rest, results):
-        if failed(j, res):       # a batch that did not assemble cleanly is looked at case by case
-            for c in j[3]:
-                src, slots = render(j[0], j[1], j[2], [c])
-                redo.append((j[0], j[1], j[2], [c], src, slots))
-        else:
-            final.append((j, res))
-    if redo:
-        with Phase("userfunc: %d cases of failed batches one by one" % len(redo)):
-            final += list(zip(redo, asm(redo, 6)))
-    jobs = [j for j, _ in final]
-    results = [r for _, r in final]
+                singles.append((st, p, two, [c]))        # no code file and no message of its own: look at it alone
+    if singles:
+        with Phase("userfunc: %d cases one by one" % len(singles)):
+            for (j, src, slots, r) in asm(singles):
+                done.append((j[0], j[1], j[2], j[3][0], src, observe(r, slots[0][0], slots[0][1])))
 
-    n_cases = n_verdict = n_open = drift = bad = 0
-    drift_shown = 0
-    for (st, p, tw, part, src, slots), res in zip(jobs, results):
-        for c, (slot, line) in zip(part, slots):
-            n_cases += 1
-            obs = observe(res, slot, line)
-            doc, mach = c["doc"], c["mach"]
-            rep.evaluated()
-            rep.distinct((st["cs"], st["radix"], tuple(d["line"] for d in st["defs"]), p, tw, c["e"]), True)
-            info = {"options": {"U": st["cs"], "radix": st["radix"]}, "definitions": [d["line"] for d in st["defs"]],
-                    "probe": c["e"], "position": p, "two_passes": tw, "declarative": doc, "as_coded": mach, "observed": obs,
-                    "deviations": c["dev"]}
-            devs = sorted(c["dev"])
-            if obs["k"] == "crash":
+    n_cases = n_verdict = n_open = drift = bad = drift_shown = 0
+    for (st, p, tw, c, src, obs) in done:
+        n_cases += 1
+        doc, mach = c["doc"], c["mach"]
+        rep.evaluated()
+        rep.distinct((st["cs"], st["radix"], tuple(d["line"] for d in st["defs"]), p, tw, c["e"]), True)
+        info = {"options": {"U": st["cs"], "radix": st["radix"]}, "definitions": [d["line"] for d in st["defs"]],
+                "probe": c["e"], "position": p, "two_passes": tw, "declarative": doc, "as_coded": mach, "observed": obs,
+                "deviations": c["dev"]}
+        devs = sorted(c["dev"])
+        single = render(st, p, tw, [c])[0]
+        if obs["k"] == "crash":
+            bad += 1
+            hang = obs["how"] == "timeout"
+            rep.violation("user function: the assembler %s on `%s` after %s" %
+                          ("does not end" if hang else "crashes (%s)" % obs["how"], c["e"], info["definitions"]),
+                          case=info, files={"a.asm": single, "batch.asm": src},
+                          key={"dev": "userfunc_recursion_fanout" if (hang and fanout(st)) else (devs[0] if devs else "none"),
+                               "obs": "crash"})
+            continue
+        if doc["k"] in ("int", "float", "str", "error"):
+            n_verdict += 1
+            if not same(doc, obs):
                 bad += 1
-                rep.violation("user function: the assembler %s on `%s` after %s" %
-                              ("does not end" if res.timeout else "crashes (%s)" % obs["how"], c["e"], info["definitions"]),
-                              case=info, files={"a.asm": src},
-                              key={"dev": "userfunc_recursion_fanout" if (res.timeout and fanout(st)) else (devs[0] if devs else "none"),
-                                   "obs": "crash"})
+                what = ("user function call `%s` (definitions %s%s%s, probe behind %d of them, %s): the manual gives %s, "
+                        "the assembler %s" % (c["e"], info["definitions"], ", -U" if st["cs"] else "",
+                                              ", RADIX %d" % st["radix"] if st["radix"] != 10 else "", p,
+                                              "two passes" if tw else "one pass", doc,
+                                              "reports an error" if obs["k"] == "error" else "yields bytes %s" % obs.get("b")))
+                keys = [{"dev": d, "obs": obs["k"]} for d in devs] or [{"dev": "none", "obs": obs["k"], "call": c["call"]}]
+                key = next((k for k in keys if rep._match_known(k) is not None), keys[0])
+                rep.violation(what, case=info, files={"a.asm": single, "batch.asm": src}, key=key)
                 continue
-            if doc["k"] in ("int", "float", "str", "error"):
-                n_verdict += 1
-                if not same(doc, obs):
-                    bad += 1
-                    what = ("user function call `%s` (definitions %s%s%s, probe behind %d of them, %s): the manual gives %s, "
-                            "the assembler %s" % (c["e"], info["definitions"], ", -U" if st["cs"] else "",
-                                                  ", RADIX %d" % st["radix"] if st["radix"] != 10 else "", p,
-                                                  "two passes" if tw else "one pass", doc,
-                                                  "reports an error" if obs["k"] == "error" else "yields bytes %s" % obs.get("b")))
-                    keys = [{"dev": d, "obs": obs["k"]} for d in devs] or [{"dev": "none", "obs": obs["k"], "call": c["call"]}]
-                    key = next((k for k in keys if rep._match_known(k) is not None), keys[0])
-                    rep.violation(what, case=info, files={"a.asm": src}, key=key)
-                    continue
-            else:
-                n_open += 1
-            if not devs and not same(mach, obs):
-                drift += 1
-                if drift_shown < 5:
-                    drift_shown += 1
-                    rep.drift("user function model: `%s` with %s (p=%d, %s, -U=%s, radix %d): transcription of the code says %s, "
-                              "observed %s" % (c["e"], info["definitions"], p, "2 passes" if tw else "1 pass", st["cs"], st["radix"],
-                                               mach, obs))
+        else:
+            n_open += 1
+        if not devs and not same(mach, obs):
+            drift += 1
+            if drift_shown < 5:
+                drift_shown += 1
+                rep.drift("user function model: `%s` with %s (p=%d, %s, -U=%s, radix %d): transcription of the code says %s, "
+                          "observed %s" % (c["e"], info["definitions"], p, "2 passes" if tw else "1 pass", st["cs"], st["radix"],
+                                           mach, obs))
+    jobs = batches + singles
     # ---- definitions: an error exactly where the manual demands one ----------------------------------------------------
     djobs = []
     for st in states:
-        if any(d["doc"] == "error" or d["mach"] != "ok" for d in st["defs"]):
+        if st["defs"]:
             src, _ = render(st, len(st["defs"]), False, [])
             djobs.append((st, src))
     dres = aslrun.assemble_many(bld, [{"sources": {"a.asm": src}, "opts": ["-q"] + (["-U"] if st["cs"] else []), "timeout": 6}
@@ -314,8 +320,8 @@ def run(rep, bld, tier):
     rep.part("UserFunc(replay)", states=len(states), cases=n_cases, with_verdict=n_verdict, open_in_manual=n_open,
              sources=len(jobs) + len(djobs), mismatches=bad, drift=drift, model_mutations_refuted=len(DEV_CFGS),
              skipped_while_recursion_fanout_hangs=skipped, cases_of_rejected_programs=unobservable)
-    vs = [j for j in jobs if j[3] and j[3][0]["doc"]["k"] in ("int", "str")]
+    vs = [d for d in done if d[3]["doc"]["k"] in ("int", "str") and d[0]["defs"]]
     if vs:
-        j = vs[len(vs) // 2]
-        rep.sample({"definitions": [d["line"] for d in j[0]["defs"]], "probe": j[3][0]["e"], "expected": j[3][0]["doc"],
-                    "options": {"U": j[0]["cs"], "radix": j[0]["radix"]}})
+        d = vs[len(vs) // 2]
+        rep.sample({"definitions": [x["line"] for x in d[0]["defs"]], "probe": d[3]["e"], "expected": d[3]["doc"],
+                    "observed": d[5], "options": {"U": d[0]["cs"], "radix": d[0]["radix"]}, "source": render(d[0], d[1], d[2], [d[3]])[0]})
